@@ -4,6 +4,7 @@ import (
 	"fmt"
 	"github.com/lugu/qiloop/type/object"
 	"math/rand"
+	"runtime"
 	"strings"
 	"sync"
 	"sync/atomic"
@@ -138,11 +139,17 @@ func (h *host) close() {
 }
 
 func c19(c *wk.Ctx) {
-	c.Note("rule", "a directory server plus two service-hosting servers (bus.StandAloneServer over counting listeners, four services each); each round creates a fresh session.NewSession and releases 4-32 goroutines through a barrier, each requesting Proxy(name) (or Object(ref)) for services behind the same and different endpoints, then calling the proxy (one call in three with an argument and an answer of 1-70 KiB); 2-6 further waves of 2-8 goroutines then use the same, established session. Oracle: the process does not crash (child), every request succeeds and the proxy answers f(token); at quiescence (decided by the quiescence detector) each hosting server has at most one open connection from the session, exactly one if it was used. Distinct non-trivial = distinct rounds in which some hosting server accepted at least two connections (the concurrent-dial path really ran).")
+	c.Note("rule", "a directory server plus two service-hosting servers (bus.StandAloneServer over counting listeners, four services each); each round creates a fresh session.NewSession and releases 4-32 goroutines through a barrier, each requesting Proxy(name) (or Object(ref)) for services behind the same and different endpoints, then calling the proxy (one call in three with an argument and an answer of 1-70 KiB); 2-6 further waves of 2-8 goroutines then use the same, established session; in one round out of two 3-10 other services (some with lower identifiers than every service asked for) leave and join the bus meanwhile, so that the session refreshes its list of services under the requests. Oracle: the process does not crash (child), every request succeeds and the proxy answers f(token); at quiescence (decided by the quiescence detector) each hosting server has at most one open connection from the session, exactly one if it was used. Distinct non-trivial = distinct rounds in which some hosting server accepted at least two connections (the concurrent-dial path really ran).")
 	var progress int64
 	var w *world
 	var hosts []*host
+	// early holds services registered on the directory server BEFORE the hosting servers (lower identifiers
+	// than every service the goroutines ask for): rounds with churn terminate them one by one while requests
+	// are in flight, so that the session's list of services shrinks in front of the entries being looked up
+	var early []bus.Service
+	transient := 0
 	teardown := func() {
+		early = nil
 		for _, h := range hosts {
 			h.close()
 		}
@@ -163,6 +170,15 @@ func c19(c *wk.Ctx) {
 				c.Inconclusive("round", i, "world: "+err.Error())
 				w = nil
 				return
+			}
+			for k := 0; k < 12; k++ {
+				e, err := w.server.NewService(fmt.Sprintf("Early%d", k), probe.ProbeObject(svc.NewImpl("early")))
+				if err != nil {
+					c.Inconclusive("round", i, "early service: "+err.Error())
+					teardown()
+					return
+				}
+				early = append(early, e)
 			}
 			for k := 0; k < 2; k++ {
 				h, err := newHost(w, k, &progress)
@@ -260,6 +276,39 @@ func c19(c *wk.Ctx) {
 				atomic.AddInt64(&progress, 1)
 			}(g)
 		}
+		// churn (one round in two): while the requests are in flight other services leave and join the bus
+		// (the session refreshes its list of services on every such event); none of them is ever asked for
+		var churnWG sync.WaitGroup
+		churned := int64(0)
+		if rng.Intn(2) == 0 {
+			steps := 3 + rng.Intn(8)
+			cr := rand.New(rand.NewSource(rng.Int63()))
+			churnWG.Add(1)
+			go func() {
+				defer churnWG.Done()
+				<-start
+				for k := 0; k < steps; k++ {
+					if len(early) > 0 && cr.Intn(2) == 0 {
+						early[0].Terminate()
+						early = early[1:]
+					} else {
+						transient++
+						t, err := w.server.NewService(fmt.Sprintf("Transient%d", transient), probe.ProbeObject(svc.NewImpl("transient")))
+						if err == nil {
+							for y := cr.Intn(4); y > 0; y-- {
+								runtime.Gosched()
+							}
+							t.Terminate()
+						}
+					}
+					atomic.AddInt64(&churned, 1)
+					atomic.AddInt64(&progress, 1)
+					for y := cr.Intn(6); y > 0; y-- {
+						runtime.Gosched()
+					}
+				}
+			}()
+		}
 		close(start)
 		done := make(chan struct{})
 		waves := 2 + rng.Intn(5)
@@ -314,6 +363,7 @@ func c19(c *wk.Ctx) {
 				close(go2)
 				wwg.Wait()
 			}
+			churnWG.Wait()
 			close(done)
 		}()
 		v, dump := stuck.Wait(done, &progress, 3*time.Minute)
@@ -376,6 +426,7 @@ func c19(c *wk.Ctx) {
 			c.Viol("round", i, x[0], x[1], detail)
 		}
 		c.Count("requests", int64(G))
+		c.Count("other_services_leaving_or_joining_the_bus_during_the_requests", atomic.LoadInt64(&churned))
 		c.Count("requests_in_later_waves_on_the_established_session", atomic.LoadInt64(&steady))
 		c.Count("requests_refused_by_server_load_shedding", atomic.LoadInt64(&overload))
 		c.Count("requests_through_a_shared_object_reference", atomic.LoadInt64(&sharedRefs))
